@@ -694,9 +694,11 @@ def run_c19(tier):
             tasks += [(name, 1, False, None, part) for part in schedule_parts(name, False, 2)]
         else:
             # bound 2 where the harness has few enough points for the complete bound-2 space (about 2*n1*n2
-            # schedules); the 2000-point nested-vs-parent harness stays at bound 1
-            big = name == "cold-nested-vs-parent"
-            tasks += [(name, 1 if big else 2, False, 400000, part) for part in schedule_parts(name, False, 4 if big else 24)]
+            # schedules); harnesses with more than 850 points stay at bound 1
+            # (n points -> about n^2 / 2 schedules at bound 2; 850 points = 360 k schedules is the line drawn)
+            parts24 = schedule_parts(name, False, 24)
+            big = max(hi for _, _, hi in parts24) > 850
+            tasks += [(name, 1 if big else 2, False, 400000, part) for part in (schedule_parts(name, False, 4) if big else parts24)]
             tasks += [(name, 1, True, 200000, part) for part in schedule_parts(name, True, 4)]
     run.rng.shuffle(tasks)
     sched_info = {}
@@ -734,7 +736,7 @@ def run_c19(tier):
         "from cleared caches; abstract-state BFS (state = cache keys + fingerprint of reachable mutable objects, "
         "used only to merge) to a fixpoint; (2) for every class and 2 values: the stream raising at EVERY write "
         "call index and EVERY read call index, then clean calls on the same cached object; (3) 2-thread "
-        f"schedules at source-line granularity, preemption bound {1 if tier == 'quick' else '2 (1 for the 2000-point nested-vs-parent harness)'}"
+        f"schedules at source-line granularity, preemption bound {1 if tier == 'quick' else '2 (1 for the harnesses with more than 850 scheduling points, see schedule_exploration)'}"
         + ("" if tier == "quick" else ", plus opcode granularity in the scratch-buffer frames with bound 1")
         + f", {len(harnesses()) - 2} harnesses (warm/cold, same/different/nested classes; thorough adds two 3-thread harnesses at bound 1, where "
         "the thread that continues after another ends is the lowest-numbered one unless a preemption says otherwise); (4) equal twins: on classes "
